@@ -17,7 +17,7 @@ THEOREMS = ["C12_through_points", "C12_newton_form", "C12_polynomial", "C12_deri
             "C12_derivative_any", "C12_derivative_two", "C12_refused_any",
             "C12_order_points_any", "C12_order_independent_any", "C12_stored_pipeline_any",
             "C12_constructor_any", "C12_constructor_order_independent_any", "C12_constructor_forms_any", "C12_copy_any",
-            "C12_duplicates_any",
+            "C12_duplicates_any", "C12_polynomial_any",
             "C12_root_step", "C12_root_sound", "C12_root_witness", "C12_root_any", "C12_grid_b64", "C12_grid_found"]
 PROOF_TIMEOUT = {"quick": 1500, "thorough": 3000}
 EXHAUSTIVE = False
@@ -56,7 +56,7 @@ EXPLANATION = ("root(): bracket invariant of the generated loop proved by induct
                "correspondence and the exact-rational search only.")
 CLAUSES = {
     "passes through every tabulated point": "proved [ideal, ANY n in 1..64 on the stored object (symbolic lists, abscissae pairwise >= tol apart): __call__ returns y_j at every x_j (C12_call_any; this is the |x - xi| < tol shortcut) AND the Newton polynomial it evaluates between the nodes passes through every point (C12_interpolates_any, Spec/Newton.v: Neville recursion for the Newton form, induction on n)]; n = 3 symbolic version C12_through_points; n = 2..9 searched (exact equality) + bit-exact correspondence",
-    "reproduces polynomials of degree < n (relative 1e-9)": "proved [ideal, ANY n in 1..64 (from the constructor arguments on for the two-list form, C12_constructor_any): _newton_diff = divided differences (C12_newton_diff_any), _compute_table stores them (C12_compute_table_any), __call__ between the nodes = Horner evaluation = Newton form NF (C12_call_any), and NF reproduces every polynomial of degree < n exactly at every x (C12_interpolates_any: a degree < n polynomial with n distinct zeros is 0)]; limits: exact real arithmetic (says nothing about the 1e-9 in binary64), x at least tol away from every node (closer than tol the node ordinate is returned), the model's recursion fuel bounds n by 64; all float input forms (lists, tuples, interleaved scalars, copy) any n; n = 2..9 by correspondence + search against exact Fraction Lagrange",
+    "reproduces polynomials of degree < n (relative 1e-9)": "proved [ideal, ANY n in 2..64, END TO END: C12_polynomial_any - points in any order, ordinates p(x_j) with deg p < n => Interpolation(px, py)(x) = p(x) exactly between the nodes and derivative(x) = p'(x) (n >= 3); pieces: _newton_diff = divided differences (C12_newton_diff_any), _compute_table stores them (C12_compute_table_any), __call__ between the nodes = Horner evaluation = Newton form NF (C12_call_any), and NF reproduces every polynomial of degree < n exactly at every x (C12_interpolates_any: a degree < n polynomial with n distinct zeros is 0)]; limits: exact real arithmetic (says nothing about the 1e-9 in binary64), x at least tol away from every node (closer than tol the node ordinate is returned), the model's recursion fuel bounds n by 64; all float input forms (lists, tuples, interleaved scalars, copy) any n; n = 2..9 by correspondence + search against exact Fraction Lagrange",
     "derivative of that polynomial": "proved [ideal, ANY n in 3..64 on the stored object: the three nested generated loops of derivative() return the derivative (Coquelicot is_derive) of the Newton form through all n points, inside the table: C12_derivative_any; n = 2: slope of the chord, C12_derivative_two; symbolic n = 3 version C12_derivative]; exact real arithmetic; n = 2..9 searched",
     "independent of the order of the points and of the input form": "proved [ideal, ANY n in 2..64, two-list form: Interpolation(px, py) for symbolic lists in any order is the object with strictly increasing abscissae, ordinates carried along, divided-difference table (C12_constructor_any: every generated loop of set(), _order_points, _compute_table), and two orders of the same points give the IDENTICAL object (C12_constructor_order_independent_any; _order_points alone for any n >= 1: C12_order_points_any, C12_order_independent_any)]; two tuples and interleaved scalars give the same object as two lists for any n in 2..64 and the copy constructor copies the fields of any table (C12_constructor_forms_any, C12_copy_any; symbolic n = 3, 4 versions C12_constructor_3/_4); NOT proved: the ordinates-only form Interpolation([y..]), mixed list/tuple arguments, the dropped dangling argument and Angle/int entries (searched); n = 2..9 all forms searched; call sequences copy/set searched (key copy-shares-state)",
     "abscissae outside the table refused with ValueError": "proved [ideal, ANY n: __call__ beyond the tolerance of every node and outside [x_0, x_(n-1)] gives ValueError (C12_refused_any, n >= 1), derivative immediately outside (C12_derivative_any, n >= 3); within tol of an end node __call__ returns that node's ordinate]; n = 3 symbolic version C12_refused; searched n = 2..9",
@@ -71,7 +71,7 @@ CLAUSES = {
 
 def proof_files(tier):
     return (["C12_defs.v", "C12_tac.v", "C12_nd.v", "C12_init3a.v", "C12_init3b.v", "C12_init3c.v", "C12_dup3.v",
-             "C12_init4a.v", "C12_init4b.v", "C12_init4c.v", "C12_ctor3.v", "C12_ctor4.v", "C12_ideal.v", "C12_root.v", "C12_witness.v", "C12_gen.v", "C12_gend.v", "C12_rootany.v", "C12_order.v", "C12_set.v"]
+             "C12_init4a.v", "C12_init4b.v", "C12_init4c.v", "C12_ctor3.v", "C12_ctor4.v", "C12_ideal.v", "C12_root.v", "C12_witness.v", "C12_gen.v", "C12_gend.v", "C12_rootany.v", "C12_order.v", "C12_set.v", "C12_poly.v"]
             + ["C12_grid_%d.v" % k for k in range(NGRID)] + ["C12_main.v", "C12.v"])
 
 NGRID = 8
